@@ -96,12 +96,16 @@ def install(eng):
 
     def dec(e, args, kwargs):
         (s,) = args
+        if isinstance(s, (bytes, bytearray)):     # a REAL base58 string: the hash of an all-concrete (empty) list computed natively
+            return GBytes(LIT(z3.StringVal(E.base58_decode(bytes(s)).hex())))
         if not isinstance(s, GStr):
             raise Unsupported('base58_decode of non-ghost')
         return s.payload
 
     def enc(e, args, kwargs):
         v, prefix = args
+        if isinstance(v, (bytes, bytearray)):      # a concrete digest (the root of an EMPTY list is the constant H(""))
+            v = GBytes(LIT(z3.StringVal(bytes(v).hex())))
         if not isinstance(v, GBytes):
             raise Unsupported('base58_encode of non-ghost bytes')
         return GStr(prefix, v, True)
@@ -127,11 +131,27 @@ def spec_root(leaves, H, cat, empty_hash):
     return hs[0]
 
 
-def _sym_root(terms):
+def _empty_root():
     import hashlib
+    return LIT(z3.StringVal(hashlib.blake2b(b'', digest_size=32).digest().hex()))
+
+
+def _sym_root(terms):
     if not terms:
-        return None
+        return _empty_root()       # root([]) = H(""), a constant
     return spec_root(terms, lambda t: BLAKE(t), lambda a, b: CAT(a, b), None)
+
+
+def _unchanged(e, oid, lst, snapshot):
+    """the caller's list is an INPUT: after the call it must hold the very same objects (a list that was padded, hashed or
+    replaced in place gives a different answer the next time it is used - e.g. list hash, then payload hash of the same list)"""
+    ok = isinstance(lst, list) and len(lst) == len(snapshot) and all(a is b for a, b in zip(lst, snapshot))
+    e.check(oid, z3.BoolVal(bool(ok)))
+
+
+def _pick(leaves, alias):
+    """alias: tuple of indices - position i holds the SAME ghost object as position alias[i] (one value passed twice)"""
+    return leaves if alias is None else [leaves[j] for j in alias]
 
 
 def h_reduce(n):
@@ -140,11 +160,14 @@ def h_reduce(n):
     def h(e: Engine):
         install(e)
         leaves = [z3.Const(f'leaf{i}', B) for i in range(n)]
+        arg = [GBytes(t) for t in leaves]
+        snap = list(arg)
         try:
-            r = e.call(Hm._reduce_operation_hashes, [[GBytes(t) for t in leaves]])
+            r = e.call(Hm._reduce_operation_hashes, [arg])
         except RaiseEx as ex:
             e.check(f'_reduce_operation_hashes[n={n}]::safety.no_exception[{type(ex.exc).__name__}]', z3.BoolVal(False))
             return
+        _unchanged(e, f'_reduce_operation_hashes[n={n}]::ensures.input_list_unchanged', arg, snap)
         if n == 0:
             import hashlib
             e.check('_reduce_operation_hashes[n=0]::ensures.hash_of_empty_string',
@@ -153,19 +176,34 @@ def h_reduce(n):
         ok = isinstance(r, GBytes)
         e.check(f'_reduce_operation_hashes[n={n}]::ensures.merkle_root(padded with last leaf)',
                 (r.t == _sym_root(leaves)) if ok else z3.BoolVal(False))
+        if n <= 9:          # the same list object handed in a second time
+            try:
+                r2 = e.call(Hm._reduce_operation_hashes, [arg])
+            except RaiseEx as ex:
+                e.check(f'_reduce_operation_hashes[n={n}]::second_call_on_the_same_list.no_exception[{type(ex.exc).__name__}]', z3.BoolVal(False))
+                return
+            e.check(f'_reduce_operation_hashes[n={n}]::second_call_on_the_same_list.same_root',
+                    (r2.t == _sym_root(leaves)) if isinstance(r2, GBytes) else z3.BoolVal(False))
     return h
 
 
-def h_list_hash(n):
+def h_list_hash(n, alias=None):
     from pytezos.crypto import hash as Hm
 
     def h(e: Engine):
         install(e)
-        leaves = [z3.Const(f'op{i}', B) for i in range(n)]
-        ops = [GStr(b'o', GBytes(t)) for t in leaves]
+        tag = f'n={n}' if alias is None else f'n={len(alias)},same object at {alias}'
+        base = [z3.Const(f'op{i}', B) for i in range(n)]
+        objs = [GStr(b'o', GBytes(t)) for t in base]
+        leaves, ops = _pick(base, alias), _pick(objs, alias)
+        snap = list(ops)
         r = e.call(Hm.operation_list_hash, [ops])
         ok = isinstance(r, GStr) and r.prefix == b'Lo' and isinstance(r.payload, GBytes)
-        e.check(f'operation_list_hash[n={n}]::ensures.b58(Lo, merkle_root(ops))', (r.payload.t == _sym_root(leaves)) if ok else z3.BoolVal(False))
+        e.check(f'operation_list_hash[{tag}]::ensures.b58(Lo, merkle_root(ops))', (r.payload.t == _sym_root(leaves)) if ok else z3.BoolVal(False))
+        _unchanged(e, f'operation_list_hash[{tag}]::ensures.input_list_unchanged', ops, snap)
+        r2 = e.call(Hm.operation_list_hash, [ops])
+        ok = isinstance(r2, GStr) and r2.prefix == b'Lo' and isinstance(r2.payload, GBytes)
+        e.check(f'operation_list_hash[{tag}]::second_call_on_the_same_list.same_hash', (r2.payload.t == _sym_root(leaves)) if ok else z3.BoolVal(False))
     return h
 
 
@@ -176,15 +214,32 @@ def h_list_list_hash(shape):
         install(e)
         lists, roots = [], []
         for li, n in enumerate(shape):
+            if n == 'same':        # the SAME inner list object as the previous pass
+                lists.append(lists[-1])
+                roots.append(roots[-1])
+                continue
             leaves = [z3.Const(f'op{li}_{i}', B) for i in range(n)]
-            if n == 0:
-                return     # concrete empty-list hash mixes concrete and abstract bytes: covered by the R part
-            lists.append([GStr(b'o', GBytes(t)) for t in leaves])
+            lists.append([GStr(b'o', GBytes(t)) for t in leaves])      # n == 0: an empty pass, its hash is the constant H("")
             roots.append(_sym_root(leaves))
+        snap = [list(x) for x in lists]
+        outer = list(lists)
         r = e.call(Hm.operation_list_list_hash, [lists])
+        if len(shape) == 0:
+            ok = isinstance(r, GStr) and r.prefix == b'LLo' and isinstance(r.payload, GBytes)
+            e.check('operation_list_list_hash[()]::ensures.b58(LLo, H(""))', (r.payload.t == _empty_root()) if ok else z3.BoolVal(False))
+            return
         ok = isinstance(r, GStr) and r.prefix == b'LLo' and isinstance(r.payload, GBytes)
         e.check(f'operation_list_list_hash[{shape}]::ensures.b58(LLo, merkle_root(list hashes))',
                 (r.payload.t == _sym_root(roots)) if ok else z3.BoolVal(False))
+        same = isinstance(lists, list) and len(lists) == len(outer) and all(a is b for a, b in zip(lists, outer)) and \
+            all(len(a) == len(b) and all(x is y for x, y in zip(a, b)) for a, b in zip(outer, snap))
+        e.check(f'operation_list_list_hash[{shape}]::ensures.input_lists_unchanged', z3.BoolVal(bool(same)))
+        if not same:
+            return
+        r2 = e.call(Hm.operation_list_list_hash, [lists])
+        ok = isinstance(r2, GStr) and r2.prefix == b'LLo' and isinstance(r2.payload, GBytes)
+        e.check(f'operation_list_list_hash[{shape}]::second_call_on_the_same_lists.same_hash',
+                (r2.payload.t == _sym_root(roots)) if ok else z3.BoolVal(False))
     return h
 
 
@@ -195,15 +250,24 @@ def h_payload(n, rnd):
         install(e)
         leaves = [z3.Const(f'op{i}', B) for i in range(n)]
         pred = z3.Const('pred', B)
-        r = e.call(Hm.block_payload_hash, [GStr(b'B', GBytes(pred)), rnd, [GStr(b'o', GBytes(t)) for t in leaves]])
+        ops = [GStr(b'o', GBytes(t)) for t in leaves]
+        snap = list(ops)
+        r = e.call(Hm.block_payload_hash, [GStr(b'B', GBytes(pred)), rnd, ops])
         want = BLAKE(CAT(CAT(pred, LIT(z3.StringVal(rnd.to_bytes(4, 'big').hex()))), _sym_root(leaves)))
         ok = isinstance(r, GStr) and r.prefix == b'vh' and isinstance(r.payload, GBytes)
         e.check(f'block_payload_hash[n={n},round={rnd}]::ensures.b58(vh, H(pred ‖ round32 ‖ merkle_root(ops)))',
                 (r.payload.t == want) if ok else z3.BoolVal(False))
+        _unchanged(e, f'block_payload_hash[n={n},round={rnd}]::ensures.input_list_unchanged', ops, snap)
+        # the list hash of the same list afterwards (what a block producer computes next) still sees the same operations
+        r2 = e.call(Hm.operation_list_hash, [ops])
+        ok = isinstance(r2, GStr) and r2.prefix == b'Lo' and isinstance(r2.payload, GBytes)
+        e.check(f'block_payload_hash[n={n},round={rnd}]::then.operation_list_hash_of_the_same_list', (r2.payload.t == _sym_root(leaves)) if ok else z3.BoolVal(False))
     return h
 
 
 def job(kind, arg):
+    if kind == 'alias':
+        return h_list_hash(max(arg) + 1, tuple(arg))
     return {'reduce': h_reduce, 'list': h_list_hash, 'listlist': h_list_list_hash}[kind](arg) if kind != 'payload' else h_payload(*arg)
 
 
@@ -235,9 +299,15 @@ def run_P(ck):
     N = 129 if ck.thorough() else 33
     ck.bound('S.list_length', f'0..{N}')
     jobs = [(f'reduce[{n}]', 'props.C31_P:job', ('reduce', n), None) for n in range(0, N + 1)]
-    jobs += [(f'list[{n}]', 'props.C31_P:job', ('list', n), None) for n in (1, 2, 3, 4, 5, 8, 9)]
-    jobs += [(f'listlist[{s}]', 'props.C31_P:job', ('listlist', s), None) for s in ((1,), (1, 1), (2, 3), (1, 2, 3, 4), (3, 1, 5))]
-    jobs += [(f'payload[{a}]', 'props.C31_P:job', ('payload', a), None) for a in ((1, 0), (2, 1), (3, 7), (5, 2 ** 31 - 1))]
+    # widened after the audit of over-specific inputs: the empty list / empty passes / no pass at all (before: R only), one
+    # ghost object at several positions (before: all leaf objects distinct, so a de-duplication by identity was invisible),
+    # rounds at the byte boundaries, inputs inspected and used AGAIN after the call (before: every list was used once)
+    jobs += [(f'list[{n}]', 'props.C31_P:job', ('list', n), None) for n in (0, 1, 2, 3, 4, 5, 8, 9)]
+    jobs += [(f'alias[{a}]', 'props.C31_P:job', ('alias', a), None) for a in ((0, 0), (0, 1, 0), (0, 1, 1), (0, 0, 0, 0, 0))]
+    jobs += [(f'listlist[{s}]', 'props.C31_P:job', ('listlist', s), None)
+             for s in ((), (0,), (1,), (1, 1), (2, 3), (1, 2, 3, 4), (3, 1, 5), (0, 0), (2, 0, 3), (0, 4, 0, 1), (2, 'same'), (1, 3, 'same'))]
+    jobs += [(f'payload[{a}]', 'props.C31_P:job', ('payload', a), None)
+             for a in ((1, 0), (2, 1), (3, 7), (5, 2 ** 31 - 1), (0, 0), (0, 3), (2, 255), (2, 256), (3, 65535), (1, 65536), (4, 2 ** 24))]
     for res in run_jobs(jobs):
         if 'error' in res:
             raise RuntimeError(f"harness {res['label']} crashed:\n{res['error']}")
